@@ -303,12 +303,12 @@ def h_exec_release_launch(sw1, ebp, cancel, fault):
 # ------------------------------------------------------------------------------
 @obligation(params={'sw1': (0, 30), 'sw2': (0, 30), 'bad': (0, 2),
                     'n': (1, 2), 'pre': 'bool'},
-            shapes={'quick': [{'_ranges': {'sw2': (0, 0)}}], 'thorough': [{}]},
+            shapes={'quick': [{'_ranges': {'bad': (2, 2)}}], 'thorough': [{}]},
             partition={'quick': ('sw1', 16), 'thorough': ('sw1', 31)},
             timeout={'quick': 300, 'thorough': 900},
             funcs=['radical/pilot/agent/executing/noop.py:NOOP.work',
                    'radical/pilot/agent/executing/noop.py:NOOP._collect'],
-            bounds='as C07 h_noop (quick: one pre-emption): the NOOP executor '
+            bounds='as C07 h_noop (quick: all tasks can be handled): the NOOP executor '
                    'publishes exactly one release request per accepted task, '
                    'whatever the interleaving of intake and collector thread')
 def h_noop_release(sw1, sw2, bad, n, pre):
